@@ -337,9 +337,10 @@ func c15LenientMutate(r *Rng, root **c15Node) string {
 			case 1: // set the ignored trailing bits of a padded group
 				if i := strings.IndexByte(s, '='); i > 0 {
 					const alpha = "ABCDEFGHIJKLMNOPQRSTUVWXYZabcdefghijklmnopqrstuvwxyz0123456789+/"
-					v := strings.IndexByte(alpha, s[i-1])
-					p.n.str = s[:i-1] + string(alpha[v|1]) + s[i:]
-					return "b64:trailing-bits"
+					if v := strings.IndexByte(alpha, s[i-1]); v >= 0 { // an earlier mutation may have left a non-alphabet byte here
+						p.n.str = s[:i-1] + string(alpha[v|1]) + s[i:]
+						return "b64:trailing-bits"
+					}
 				}
 			case 2:
 				raw := r.Bytes(r.Intn(6))
